@@ -28,7 +28,7 @@ def mod(rel): return rel[:-5].replace("/", ".")
 TB_COMMON = [
     "Lean 4.33 kernel; axioms propext, Classical.choice, Quot.sound only (audited by #print axioms on every listed theorem, every run)",
     "Mathlib v4.33 as installed",
-    "translators T1 (symbolic tracing of the real formula code) and T2 (AST inventory), re-run on every check; harness/driver canonicalisers",
+    "translators T1 (symbolic tracing of the real class-formula code), T2 (AST inventory) and T3 (symbolic execution of every primitive step), re-run on every check; harness/driver canonicalisers",
     "hand-written executable model (lean/PepitModel) tied to /repo by the correspondence streams of this run",
     "Python floats modelled as exact rationals (rounding not modelled)",
 ]
@@ -117,13 +117,13 @@ prop("C07", ["PepitVerif/Props/C07.lean", "PepitVerif/Math/OracleInv.lean", "Pep
      direct=[oracle("c07_fuzz", 300, 6000)],
      assumptions=["exact arithmetic: the rounding of remainder / weight is not modelled", "run_inv covers every sequence of oracle/gradient/value/stationary_point/fixed_point calls (each valid when made); the primitive steps are covered by the steps stream only", "run_inv assumes Struct: a composite flagged non-differentiable has a non-differentiable term of non-zero weight (false for h = f1 + 0*f2 with f2 non-differentiable)"])
 
-prop("C08", ["PepitVerif/Props/C08.lean", "PepitVerif/Math/StepsSem.lean"],
+prop("C08", ["PepitVerif/Props/C08.lean", "PepitVerif/Props/C08Gen.lean", "PepitVerif/Math/StepsSem.lean"],
      streams=[stream("steps (all 8 steps, every option, leaf/composite functions, leaf/combination starts)", "steps", 300, 6000, offset=59),
               stream("collect (side constraints recorded by steps on composite functions reach the solver, also when the same combination is written twice)", "collect", 100, 2000, env={"PEPV_TEE": "1", "STUBS": "1"}, offset=149)],
      direct=[oracle("c08_steps", 300, 5000)],
      assumptions=["real_sound is proved for the proximal, linear-optimisation, inexact-gradient, exact line-search (smooth functions) and Bregman gradient steps; Bregman proximal, ε-subgradient and inexact-prox real sides are not formalised"])
 
-prop("C09", ["PepitVerif/Props/C09.lean", "PepitVerif/Math/Certificate.lean", "PepitVerif/Props/C10.lean"], only=[r"C09\.", "cert_sound", "trace_mul_nonneg", "gd_no_run_beats_bound", "gd_contraction_n", "gd_contraction_upper", "subgradient_bound", "subg_telescope", "pg_contraction", "prox_nonexpansive"],
+prop("C09", ["PepitVerif/Props/C09.lean", "PepitVerif/Math/Certificate.lean", "PepitVerif/Props/C10.lean", "PepitVerif/Props/C08Gen.lean"], only=[r"C09\.", r"C08Gen\.", "cert_sound", "trace_mul_nonneg", "gd_no_run_beats_bound", "gd_contraction_n", "gd_contraction_upper", "subgradient_bound", "subg_telescope", "pg_contraction", "prox_nonexpansive"],
      streams=[stream("steps (recorded relations of the steps the examples are built from)", "steps", 100, 2000, offset=61),
               stream("cls (class constraints the examples rely on)", "cls", 100, 2000, offset=67),
               stream("collect+cvx (what the pipeline sends and records as sent; the real cvxpy wrapper)", "collect", 80, 1500, env={"PEPV_TEE": "1", "STUBS": "1"}, offset=89),
